@@ -481,7 +481,7 @@ def _operand(s, power=False):
     return s
 
 # integer literals of a formula (not the digits of a name or of a decimal)
-_int_literals = re.compile(r'(?<![\w.])(\d+)(?![\w.])')
+_int_literals = re.compile(r'(?<![\w.])(?<![eE][-+])(\d+)(?![\w.])')
 
 def pslqstring(r, constants):
     q = r[0]
@@ -792,8 +792,7 @@ def identify(ctx, x, constants=[], tol=None, maxcoeff=1000, full=False,
 
     solutions = []
     names = {}
-    if isinstance(constants, dict):
-        names.update(constants)
+    named_values = isinstance(constants, dict)
 
     def addsolution(s):
         # The relation holds for the transformed value; the formula has
@@ -803,15 +802,22 @@ def identify(ctx, x, constants=[], tol=None, maxcoeff=1000, full=False,
         if 'mpf' not in names:
             for name in dir(ctx):
                 names.setdefault(name, getattr(ctx, name))
+        text = s
+        if named_values:
+            # the names of a dict of constants stand for their values
+            # (they need not be expressions, nor even identifiers)
+            given = sorted(constants, key=lambda vn: -len(vn[1]))
+            for i, (value, name) in enumerate(given):
+                if name != '1':
+                    text = text.replace(name, '_c%i_' % i)
+                    names['_c%i_' % i] = value
         try:
-            v = eval(_int_literals.sub(r'mpf(\1)', s), names)
+            v = eval(_int_literals.sub(r'mpf(\1)', text), names)
             if not abs(v - x) <= 100*tol*max(1, abs(x)):
                 return False
-        except (ArithmeticError, ValueError):
+        except (ArithmeticError, ValueError, NameError, SyntaxError,
+                TypeError):
             return False
-        except (NameError, SyntaxError, TypeError):
-            # a constant given under a name that cannot be evaluated
-            pass
         if verbose: print("Found: ", s)
         solutions.append(s)
         return True
@@ -855,7 +861,11 @@ def identify(ctx, x, constants=[], tol=None, maxcoeff=1000, full=False,
         for c, cn in constants:
             if red and cn == '1':
                 continue
-            t = ft(ctx,x,c)
+            try:
+                t = ft(ctx,x,c)
+            except ZeroDivisionError:
+                # e.g. c/ln(x) for x = 1
+                continue
             # Prevent exponential transforms from wreaking havoc
             if abs(t) > M**2 or abs(t) < tol:
                 continue
